@@ -38,12 +38,25 @@ def ensure_built(clean=False, log=None):
         out = []
         if clean:
             subprocess.run(["bash", "-c", "cd %s && [ -f Makefile ] && make -s clean >/dev/null 2>&1; rm -f Makefile Makefile.conf .Makefile.d" % COQ])
-        if not os.path.exists(os.path.join(COQ, "Makefile")):
+        mk, cp = os.path.join(COQ, "Makefile"), os.path.join(COQ, "_CoqProject")
+        if not os.path.exists(mk) or os.path.getmtime(mk) < os.path.getmtime(cp):
             p = subprocess.run(["coq_makefile", "-f", "_CoqProject", "-o", "Makefile"], cwd=COQ, capture_output=True, text=True)
             out.append(p.stdout + p.stderr)
-        p = subprocess.run(["timeout", "3000", "make", "-j16"], cwd=COQ, capture_output=True, text=True)
+        # -k: a lemma file that no longer checks must only take down the properties that depend on it; each
+        # property's own Props file is re-checked separately (check_props) and fails there if a dependency is missing
+        p = subprocess.run(["timeout", "3000", "make", "-k", "-j16"], cwd=COQ, capture_output=True, text=True)
         out.append(p.stdout[-4000:] + p.stderr[-4000:])
-        ok = p.returncode == 0
+        # a source that failed to rebuild must not leave a stale .vo behind for its dependents to load
+        for root, _, files in os.walk(os.path.join(COQ, "theories")):
+            for f in files:
+                if f.endswith(".v"):
+                    v, vo = os.path.join(root, f), os.path.join(root, f + "o")
+                    if os.path.exists(vo) and os.path.getmtime(vo) < os.path.getmtime(v):
+                        os.unlink(vo)
+        p2 = subprocess.run(["timeout", "600", "make", "theories/Extract.vo"], cwd=COQ, capture_output=True, text=True)
+        ok = p2.returncode == 0
+        if not ok:
+            out.append(p2.stdout[-2000:] + p2.stderr[-2000:])
         src = os.path.join(COQ, "model.ml")
         if ok and os.path.exists(src):
             dst = os.path.join(OCAML, "model.ml")
@@ -110,7 +123,44 @@ def props_file(pid):
     return os.path.join(COQ, "theories", "Props", pid + ".v")
 
 
-def check_props(pid):
+def _sources_digest():
+    import hashlib
+    h = hashlib.sha256()
+    for root, dirs, files in sorted(os.walk(os.path.join(COQ, "theories"))):
+        dirs.sort()
+        for f in sorted(files):
+            if f.endswith(".v"):
+                h.update(f.encode())
+                h.update(open(os.path.join(root, f), "rb").read())
+    h.update(open(os.path.join(COQ, "_CoqProject"), "rb").read())
+    return h.hexdigest()[:24]
+
+
+def check_props(pid, use_cache=True):
+    """The kernel's verdict on theories/Props/<pid>.v.  The result of compiling it (coqc, with the Print Assumptions
+    output) is cached under .work/ keyed by a digest of EVERY .v source of the development, so the file is
+    re-checked whenever any model, lemma or property source changes and re-used otherwise (the proofs do not depend
+    on the repository under test; the correspondence check, which does, is never cached)."""
+    import json
+    cdir = os.path.join(WORK, "props-cache")
+    key = os.path.join(cdir, "%s-%s.json" % (pid, _sources_digest()))
+    if use_cache and os.environ.get("OSV_NO_PROOF_CACHE") != "1" and os.path.exists(key):
+        try:
+            res = json.load(open(key))
+            res["cached"] = True
+            return res
+        except Exception:  # noqa: BLE001
+            pass
+    res = _check_props(pid)
+    if res["ok"]:
+        os.makedirs(cdir, exist_ok=True)
+        tmp = key + ".%d" % os.getpid()
+        json.dump(res, open(tmp, "w"))
+        os.replace(tmp, key)
+    return res
+
+
+def _check_props(pid):
     """Compile theories/Props/<pid>.v now and parse the Print Assumptions output.
     Returns dict(theorems=[...], accepted=[...], axioms={thm: [names]}, bad_axioms=[...], ok=bool, log=str)"""
     path = props_file(pid)
@@ -121,21 +171,14 @@ def check_props(pid):
     text = _strip_comments(open(path).read())
     res["theorems"] = re.findall(r"^\s*(?:Theorem|Lemma|Corollary|Example|Remark)\s+([A-Za-z0-9_']+)", text, re.M)
     os.makedirs(WORK, exist_ok=True)
-    outvo = os.path.join(WORK, "%s-%d.vo" % (pid, os.getpid()))
+    outdir = os.path.join(WORK, "props-%s-%d" % (pid, os.getpid()))
+    os.makedirs(outdir, exist_ok=True)
+    outvo = os.path.join(outdir, "%s.vo" % pid)
     cmd = ["timeout", "900", "coqc", "-q", "-Q", "theories", "OSV", "-o", outvo, os.path.relpath(path, COQ)]
     res["cmd"] = "cd coq && make -j16 && " + " ".join(cmd[2:])
     t0 = time.time()
     p = subprocess.run(cmd, cwd=COQ, capture_output=True, text=True)
-    for ext in ("", "k", "s"):
-        try:
-            os.unlink(outvo + ext)
-        except OSError:
-            pass
-    for f in (outvo[:-3] + ".glob",):
-        try:
-            os.unlink(f)
-        except OSError:
-            pass
+    shutil.rmtree(outdir, ignore_errors=True)
     res["log"] = (p.stdout + p.stderr)[-6000:]
     res["coqc_s"] = round(time.time() - t0, 2)
     if p.returncode != 0:
@@ -148,7 +191,7 @@ def check_props(pid):
         if b.startswith("Closed under"):
             res["axioms"][name] = []
         else:
-            names = re.findall(r"^([A-Za-z_][A-Za-z0-9_'.]*)\s*:", b, re.M)
+            names = [x for x in re.findall(r"^([A-Za-z_][A-Za-z0-9_'.]*)\s*:", b, re.M) if x not in ("Axioms", "Section")]
             res["axioms"][name] = names
             for nme in names:
                 if nme not in ALLOWED_AXIOMS:
